@@ -144,6 +144,32 @@ def _concurrent_case(rng, methods, silent=False):
     return Case("concurrent-%d" % th, reqs, rt=rt, ct=200, th=th, ident="token")
 
 
+def _shared_client_case(rng, lease, rt, waiters, bg_gap, slow, budget0):
+    """One client shared by: a caller stuck on a silent host (server 0), `waiters` more callers queued for the same
+    host:port behind it, a background caller completing requests to a healthy host (server 1) every bg_gap ms, and
+    optionally two callers on a slow-but-healthy host (server 2). leaseAcquireTimeout = lease."""
+    reqs, th = [], 0
+    silent = Fault("silence-after-request") if rng.random() < 0.7 else Fault("silence-after-response-bytes", 20)
+    reqs.append(Req("GET", budget0, [silent], th=th, srv=0))
+    for k in range(waiters):
+        th += 1
+        m = rng.choice(["POST", "GET", "PUT", "PATCH", "DELETE"])
+        reqs.append(Req(m, rng.choice([0, 0, 1]), [silent], th=th, srv=0, pre=60 + 25 * k))
+    th += 1
+    span = (budget0 + 1) * rt + rt + lease + 600          # long enough to cover a waiter that (wrongly) inherits the slot
+    n_bg = max(4, min(400, span // (bg_gap + 3)))
+    for j in range(n_bg):
+        reqs.append(Req("GET" if j % 3 else "POST", 0, [OK], th=th, srv=1, gap=bg_gap))
+    nsrv = 2
+    if slow:
+        nsrv = 3
+        for k in range(2):
+            th += 1
+            reqs.append(Req(rng.choice(["GET", "POST"]), 0, [Fault("ok-slow", slow)], th=th, srv=2, pre=40 + 10 * k))
+            reqs.append(Req("GET", 1, [Fault("ok-slow", slow // 2)], th=th, srv=2))
+    return Case("shared-client-lease", reqs, rt=rt, ct=200, th=th + 1, ident="token", nsrv=nsrv, lease=lease)
+
+
 def _enumerate(ctx, geo, thorough):
     rng = ctx.rng
     methods = cc.METHODS_QUICK + (cc.METHODS_MORE if thorough else [])
@@ -250,6 +276,15 @@ def _enumerate(ctx, geo, thorough):
         cases.append(_concurrent_case(rng, methods, silent=(i % 8 == 7)))
     spaces["concurrent:2-8-callers(sampled)"] = dict(size=None, run=nF, exhaustive=False)
 
+    # K. one client shared across hosts with a lease-acquire timeout: silent / slow / healthy servers, background traffic
+    uniK = [(L, rt, w, g, sl, b0) for L in (100, 200, 300) for rt in (1200, 2000) for w in (1, 2, 3)
+            for g in (15, 40, "L/2", "3L") for sl in (0, "L/2", "2L") for b0 in (0, 1)]
+    pickK = uniK if thorough else rng.sample(uniK, 24)
+    for L, rt, w, g, sl, b0 in space("shared-client-lease:lease*rt*waiters*background-rate*slow-host*budget", uniK, pickK):
+        gap = {"L/2": L // 2, "3L": 3 * L}.get(g, g)
+        slow = {"L/2": L // 2, "2L": 2 * L}.get(sl, sl)
+        cases.append(_shared_client_case(rng, L, rt, w, gap, slow, b0))
+
     # G. reuseConnections=false: the client itself says "Connection: close"
     uniG = [(m, f) for m in methods for f in (OK, Fault("rst-after-request"), Fault("surplus"), Fault("fin-after-response-bytes", 40))]
     pickG = uniG if thorough else rng.sample(uniG, 20)
@@ -282,7 +317,7 @@ def _enumerate(ctx, geo, thorough):
 
 # ------------------------------------------------------------------------------ judging
 def _spec_detail(c):
-    return dict(spec=c.render(), meta=dict(group=c.group, rt=c.rt, ct=c.ct, ka=c.ka, th=c.th, wd=c.wd, id=c.id,
+    return dict(spec=c.render(), meta=dict(group=c.group, rt=c.rt, ct=c.ct, ka=c.ka, th=c.th, wd=c.wd, id=c.id, lease=getattr(c, "lease", 0),
                                            reqs=[dict(method=r.method, budget=r.budget, token=r.token, refuse=r.refuse,
                                                       blackhole=r.blackhole) for r in c.reqs]))
 
@@ -398,7 +433,9 @@ def run(ctx):
                 "request is never transmitted again; a 2nd+ request on a connection only if every earlier exchange on it completed cleanly "
                 "(no Connection: close / HTTP/1.0 default close / surplus bytes / close-delimited body / EOF / failure that the client had "
                 "already read); on a silent peer the attempt is given up within timeout + 250 ms + 6x measured scheduling noise "
-                "(a miss must reproduce 3x in isolation); a caller gets the response of its own request. "
+                "(a miss must reproduce 3x in isolation); with leaseAcquireTimeout set on a client shared across hosts, every attempt reaches the wire or "
+                "gives up within leaseAcquireTimeout + connect timeout (+ the same allowance) and a call returns within attempts x (lease + connect + "
+                "request timeout) + back-off, whatever other callers do on other hosts (same 3x isolation rule); a caller gets the response of its own request. "
                 "distinct = hash(group, (method,budget,refuse,blackhole) per request, server programs executed, outcomes, "
                 "transmissions per request, back-offs per request, keep-alive, threads)")
     ctx.assumptions = [
@@ -413,7 +450,8 @@ def run(ctx):
                     "nonidempotent_retried_only_while_unsent", "idempotent_retransmissions", "framing_errors_reported",
                     "silent_attempts", "timeouts_reported", "reuse_of_clean_connection", "server_rst", "server_fin",
                     "taint:surplus", "taint:malformed", "taint:close-delimited", "taint:resp-connection-close",
-                    "connects_never_accepted", "ex:HttpRequestNotSentError", "ex:HttpFramingError", "blackholed_connects")
+                    "connects_never_accepted", "ex:HttpRequestNotSentError", "ex:HttpFramingError", "blackholed_connects",
+                    "lease_timeouts_reported", "lease_phase_checked")
 
 
 class _ReplayReq:
@@ -426,6 +464,7 @@ class _ReplayCase:
     def __init__(self, spec, meta):
         self.spec, self.meta = spec, meta
         self.group, self.rt, self.ct, self.ka, self.th, self.wd, self.id = (meta[k] for k in ("group", "rt", "ct", "ka", "th", "wd", "id"))
+        self.lease = meta.get("lease", 0)
         self.reqs = [_ReplayReq(r) for r in meta["reqs"]]
 
     def render(self):
